@@ -91,7 +91,8 @@ class error_997_visitor(error_visitor.error_visitor):
         gs_seg.append(seg.get_value('GS02').rstrip())
         gs_seg.append(time.strftime('%Y%m%d'))
         gs_seg.append(time.strftime('%H%M%S'))
-        gs_seg.append(seg.get_value('GS06'))
+        # our own group control number: reuse theirs, unless they sent none
+        gs_seg.append(seg.get_value('GS06') or self.isa_control_num)
         gs_seg.append(seg.get_value('GS07'))
         gs_seg.append('004010')  # GS08 is the version/release code, not ISA12
         self._write(gs_seg)
